@@ -1597,6 +1597,19 @@ class Models(object):
             return ka in ('f', 'c')
         return ka == kb
 
+    def np_nonzero(self, a):
+        a = self.np_asarray(a)
+        if a.ndim == 0:
+            raise InterpValueError('Calling nonzero on 0d arrays is not allowed')
+        hits = []
+        for idx in itertools.product(*[range(n) for n in a.shape]):
+            v = a[idx]
+            if isinstance(v, (Unk, Choice)):
+                raise AnalysisError('nonzero of undetermined mask')
+            if _truthy(v):
+                hits.append(idx)
+        return tuple(Arr((len(hits),), [h[d] for h in hits], kind='i') for d in range(a.ndim))
+
     def np_flatnonzero(self, a):
         a = self.np_asarray(a).ravel()
         out = []
@@ -1974,6 +1987,10 @@ class Models(object):
             else:
                 c = ndarr.concrete_real(v)
                 if c is None:
+                    from .dv import UnkInt, tags_of
+                    if isinstance(v, Unk) and tags_of(v):
+                        flags.append(UnkInt(tags_of(v)))         # 0 or 1, depending on the data named by the tags
+                        continue
                     raise AnalysisError('np.count_nonzero of an undetermined element %r' % (v,))
                 flags.append(1 if c != 0 else 0)
         return self.np_sum(Arr(a.shape, flags, kind='i'), axis=axis, **kw)
